@@ -17,6 +17,9 @@ func main() {
 	switch os.Args[1] {
 	case "run":
 		os.Exit(fw.DriverMain(os.Args[2:]))
+	case "c04child":
+		gq.Silence()
+		C04Child(os.Args[2:])
 	case "worker":
 		gq.Silence()
 		fw.WorkerMain(os.Args[2:])
